@@ -100,24 +100,24 @@ def cldrFind : Spec.Find := fun k => cldrDict[k]?
 
 def resLang (r : Res Language) : String :=
   match r with
-  | .ok l => s!"ok {esc (Language.asStr l)};{esc (Language.asStr l)};{b01 (Language.eqStr l (Language.asStr l))};{b01 l.isNone}"
+  | .ok l => s!"ok {esc (Language.asStr l)};{esc (Language.asStr l)};{b01 (Language.eqStr l (Language.asStr l))};{b01 l.isNone};rt={b01 (Language.fromBytes (Language.asStr l) == .ok l)}"
   | .err e => errCode e
   | .panic => "panic"
 
-def resSubtag (r : Res Bytes) : String :=
+def resSubtag (p : Bytes → Res Bytes) (r : Res Bytes) : String :=
   match r with
-  | .ok s => s!"ok {esc s};{esc s};1"
+  | .ok s => s!"ok {esc s};{esc s};1;rt={b01 (p s == .ok s)}"
   | .err e => errCode e
   | .panic => "panic"
 
 def specLang (v : Bytes) : String :=
   if Spec.isLanguage v then
     let s := (Spec.canonLanguage v).getD Spec.und
-    s!"ok {esc s};{esc s};1;{b01 (Spec.canonLanguage v).isNone}"
+    s!"ok {esc s};{esc s};1;{b01 (Spec.canonLanguage v).isNone};rt=1"
   else "err L"
 
 def specSubtag (p : Bytes → Bool) (f : Bytes → Bytes) (v : Bytes) : String :=
-  if p v then s!"ok {esc (f v)};{esc (f v)};1" else "err S"
+  if p v then s!"ok {esc (f v)};{esc (f v)};1;rt=1" else "err S"
 
 def ansLi (v : Bytes) : String :=
   match LangId.fromBytes v with
@@ -314,13 +314,13 @@ def answer (line : String) : String :=
       | none => "bad"
     | "langdefault" => s!"{resLang (.ok Language.default)} | {resLang (.ok Language.default)}"
     | "script" => match arg 0 with
-      | some v => withSpec (resSubtag (Script.fromBytes v)) (specSubtag Spec.isScript title v)
+      | some v => withSpec (resSubtag Script.fromBytes (Script.fromBytes v)) (specSubtag Spec.isScript title v)
       | none => "bad"
     | "region" => match arg 0 with
-      | some v => withSpec (resSubtag (Region.fromBytes v)) (specSubtag Spec.isRegion upper v)
+      | some v => withSpec (resSubtag Region.fromBytes (Region.fromBytes v)) (specSubtag Spec.isRegion upper v)
       | none => "bad"
     | "variant" => match arg 0 with
-      | some v => withSpec (resSubtag (Variant.fromBytes v)) (specSubtag Spec.isVariant lower v)
+      | some v => withSpec (resSubtag Variant.fromBytes (Variant.fromBytes v)) (specSubtag Spec.isVariant lower v)
       | none => "bad"
     | "li" => match arg 0 with
       | some v => withSpec (ansLi v) (specLi v)
@@ -361,12 +361,46 @@ def answer (line : String) : String :=
       | some v =>
         match LangId.fromBytes v with
         | .ok x =>
-          match (if op == "limax" then x.maximize Gen.tables else x.minimize Gen.tables) with
-          | .ok (y, b) => s!"ok {b01 b} {renderLi y}"
+          let f (y : LangId) := if op == "limax" then y.maximize Gen.tables else y.minimize Gen.tables
+          match f x with
+          | .ok (y, b1) =>
+            match f y with
+            | .ok (z, b2) => s!"ok {renderLi x} | {b01 b1} {renderLi y} | {b01 b2} {renderLi z}"
+            | .err _ => "err"
+            | .panic => "panic"
           | .err _ => "err"
           | .panic => "panic"
         | .err e => errCode e
         | .panic => "panic"
+      | none => "bad"
+    | "liminmax" => match arg 0 with
+      | some v =>
+        match LangId.fromBytes v with
+        | .ok x =>
+          match x.minimize Gen.tables, x.maximize Gen.tables with
+          | .ok (a, _), .ok (c, _) =>
+            match c.minimize Gen.tables, a.maximize Gen.tables with
+            | .ok (bb, _), .ok (d, _) => s!"ok {renderLi a} | {renderLi bb} | {renderLi c} | {renderLi d}"
+            | _, _ => "panic"
+          | _, _ => "panic"
+        | .err e => errCode e
+        | .panic => "panic"
+      | none => "bad"
+    | "idem" => match arg 0 with
+      | some v =>
+        let a := match LangId.canonicalize v with
+          | .ok s => (match LangId.canonicalize s with
+                      | .ok t => b01 (s == t)
+                      | _ => "0")
+          | .err _ => "e"
+          | .panic => "panic"
+        let c := match Locale.canonicalize v with
+          | .ok s => (match Locale.canonicalize s with
+                      | .ok t => b01 (s == t)
+                      | _ => "0")
+          | .err _ => "e"
+          | .panic => "panic"
+        s!"ok li={a} loc={c}"
       | none => "bad"
     | "locmax" | "locmin" => match arg 0 with
       | some v =>
@@ -432,7 +466,7 @@ def answer (line : String) : String :=
       | some x, some y =>
         match Locale.fromBytes x, Locale.fromBytes y with
         | .ok x, .ok y =>
-          s!"ok eq={b01 (x == y)} cmp={ordStr (cmpLoc x y)} he={b01 (x == y)} se={b01 (x.display == y.display)} lieq={b01 (x.id == y.id)} licmp={ordStr (cmpLi x.id y.id)}"
+          s!"ok eq={b01 (x == y)} cmp={ordStr (cmpLoc x y)} rcmp={ordStr (cmpLoc y x)} he={b01 (x == y)} se={b01 (x.display == y.display)} lieq={b01 (x.id == y.id)} licmp={ordStr (cmpLi x.id y.id)}"
         | _, _ => "err"
       | _, _ => "bad"
     | "eqstr" => match arg 0, arg 1 with
@@ -450,7 +484,13 @@ def answer (line : String) : String :=
           | .err e => errCode e
           | .panic => "panic"
         let locs := match Locale.fromBytes v with
-          | .ok l => s!"ok {renderLoc l};ideq=1;aref=1"
+          | .ok l =>
+            let toks := splitSep v
+            let pre := join (toks.takeWhile (fun t => t.length != 1))
+            let preEq := match LangId.fromBytes pre with
+              | .ok p => b01 (p == l.id)
+              | _ => "e"
+            s!"ok {renderLoc l};ideq=1;aref=1;pre={preEq}"
           | .err e => errCode e
           | .panic => "panic"
         s!"{lis} | {locs}"
